@@ -5,7 +5,7 @@ import schedlib
 
 def run(c):
     schedlib.run_sched_check(
-        c, "c07", [schedlib.oracle_c07], n_quick=300, n_thorough=3000, golden_name="c07.json",
+        c, "c07", [schedlib.oracle_c07, lambda w, t, r: schedlib.oracle_rest(w, t, r, "C07")], n_quick=300, n_thorough=3000, golden_name="c07.json",
         rule=("random DAGs (<=7 jobs, deeper chains, about a third of the processes failing), failures delivered "
               "before, while and after dependents are submitted (submissions interleaved with completions), markers, "
               "tokens, experiment.wait() mid-way and at exit; non-trivial = at least two jobs and one dependency; "
